@@ -52,7 +52,7 @@ theorem seenLook_cons {K} [DecidableEq K] (s : SeenL K) (k k' : K) (i : Nat) :
   by_cases h : k = k'
   · subst h; simp
   · have h' : ¬ k' = k := fun e => h e.symm
-    simp [List.find?_cons, h, h']
+    simp [h, h']
 
 variable {K1 K2 : Type} [DecidableEq K1] [DecidableEq K2]
 
@@ -74,6 +74,7 @@ structure Sim (φ : Nat → Nat) (D : Nat → Prop) (key1 : Nat → Option K1) (
     (s1 : WalkSt K1) (s2 : WalkSt K2) : Prop where
   outs : s1.outs.toList = s2.outs.toList.map (mapNode φ)
   idx : s1.idx = s2.idx
+  dom : ∀ o ∈ s2.outs.toList, D o.node
   seen : ∀ t, D t → ∀ k1 k2, key1 (φ t) = some k1 → key2 t = some k2 →
     seenLook s1.seen k1 = seenLook s2.seen k2
 
@@ -108,8 +109,13 @@ theorem fin_sim {φ : Nat → Nat} {D : Nat → Prop} {ch1 ch2 : Nat → List Na
     | some k2 => rw [h1, h2] at hs; cases hs
     | none =>
       simp only []
-      refine ⟨⟨?_, by simp [h.idx], h.seen⟩, h.idx⟩
-      simp [h.outs, h.idx, mapNode]
+      refine ⟨⟨?_, by simp [h.idx], ?_, h.seen⟩, h.idx⟩
+      · simp [h.outs, h.idx, mapNode]
+      · intro o ho
+        simp only [Array.toList_push, List.mem_append, List.mem_singleton] at ho
+        rcases ho with ho | rfl
+        · exact h.dom o ho
+        · exact ht
   | some k1 =>
     cases h2 : key2 t with
     | none => rw [h1, h2] at hs; cases hs
@@ -120,8 +126,13 @@ theorem fin_sim {φ : Nat → Nat} {D : Nat → Prop} {ch1 ch2 : Nat → List Na
       | some i => exact ⟨h, rfl⟩
       | none =>
         simp only []
-        refine ⟨⟨?_, by simp [h.idx], ?_⟩, h.idx⟩
+        refine ⟨⟨?_, by simp [h.idx], ?_, ?_⟩, h.idx⟩
         · simp [h.outs, h.idx, mapNode]
+        · intro o ho
+          simp only [Array.toList_push, List.mem_append, List.mem_singleton] at ho
+          rcases ho with ho | rfl
+          · exact h.dom o ho
+          · exact ht
         · intro t' ht' k1' k2' h1' h2'
           rw [seenLook_cons, seenLook_cons, h.idx, h.seen t' ht' k1' k2' h1' h2']
           have := H.inj t' t ht' ht k1' k1 k2' k2 h1' h1 h2' h2
